@@ -1026,6 +1026,36 @@ nnls_normal_block3(cholmod_sparse *AtA, cholmod_dense *Atb, int verbose,
 
                         ++solves;
 
+                        /*
+                         * A solution which is not finite (from a
+                         * factorisation which broke down without being
+                         * flagged, or from non-finite input) cannot be
+                         * improved upon by this loop, which would then
+                         * never end: every comparison with NaN is false.
+                         */
+                        {
+                                int finite = 1;
+                                for (i = 0; i < nF; i++)
+                                        if (!isfinite(((double*)(x_F->x))[i]))
+                                                finite = 0;
+                                if (!finite) {
+                                        if (verbose)
+                                                printf("\tSolution is not "
+                                                    "finite, giving up\n");
+                                        cholmod_l_free_dense(&x_F, c);
+                                        cholmod_l_free_dense(&x, c);
+                                        cholmod_l_free_dense(&y, c);
+                                        cholmod_l_free_factor(&L, c);
+                                        free(F);
+                                        free(G);
+                                        free(Fprime);
+                                        free(Gprime);
+                                        free(H1);
+                                        free(H2);
+                                        return (NULL);
+                                }
+                        }
+
                         if (verbose) {
                                 t1 = clock();
                                 printf("\tSolve[%d] (%ld free): %.2f s\n",
